@@ -403,6 +403,12 @@ func (o observerImpl) ObserveMerkleRoots(
 					return
 				}
 
+				if err := msgsCoverRange(msgs, chainRange.SeqNumRange); err != nil {
+					o.lggr.Warnw("call to MsgsBetweenSeqNums returned unexpected messages", "err", err,
+						"chainSelector", chainRange.ChainSel)
+					return
+				}
+
 				root, err := o.computeMerkleRoot(ctx, msgs)
 				if err != nil {
 					o.lggr.Warnw("call to computeMerkleRoot failed", "err", err)
@@ -435,6 +441,26 @@ func (o observerImpl) ObserveMerkleRoots(
 	wg.Wait()
 
 	return roots
+}
+
+// msgsCoverRange checks that msgs can be exactly the messages of the provided sequence number range: as many
+// messages as sequence numbers in the range and every message within the range. Together with the
+// consecutive sequence numbers check of computeMerkleRoot this guarantees that a merkle root is never
+// observed for a range that was only partially read (e.g. when the latest messages are not finalized yet).
+func msgsCoverRange(msgs []cciptypes.Message, rng cciptypes.SeqNumRange) error {
+	if rng.End() < rng.Start() {
+		return fmt.Errorf("invalid sequence number range %s", rng)
+	}
+	// number of messages minus one is compared, the number of elements of [0 -> MaxUint64] overflows.
+	if len(msgs) == 0 || uint64(len(msgs)-1) != uint64(rng.End()-rng.Start()) {
+		return fmt.Errorf("got %d messages for sequence number range %s", len(msgs), rng)
+	}
+	for _, msg := range msgs {
+		if !rng.Contains(msg.Header.SequenceNumber) {
+			return fmt.Errorf("message with sequence number %d is outside of range %s", msg.Header.SequenceNumber, rng)
+		}
+	}
+	return nil
 }
 
 // computeMerkleRoot computes the merkle root of a list of messages
